@@ -1,3 +1,4 @@
+pub mod alloc;
 pub mod crash;
 pub mod engine;
 pub mod gens;
